@@ -1409,7 +1409,12 @@ static void ares_detach_query(ares_query_t *query)
 {
   /* Remove the query from all the lists in which it is linked */
   ares_query_remove_from_conn(query);
-  ares_htable_szvp_remove(query->channel->queries_by_qid, query->qid);
+  /* Only remove our own entry.  A query that has already been detached may see
+   * its id reused by a newer query started from its completion callback. */
+  if (ares_htable_szvp_get_direct(query->channel->queries_by_qid,
+                                  query->qid) == query) {
+    ares_htable_szvp_remove(query->channel->queries_by_qid, query->qid);
+  }
   ares_llist_node_destroy(query->node_all_queries);
   query->node_all_queries = NULL;
 }
@@ -1425,6 +1430,12 @@ static void end_query(ares_channel_t *channel, ares_server_t *server,
   }
 
   ares_metrics_record(query, server, status, dnsrec);
+
+  /* Remove the query from all the lists it is linked in before invoking the
+   * callback.  The callback is allowed to call back into the channel, e.g.
+   * ares_cancel(), which must not be able to find this query and complete and
+   * free it a second time. */
+  ares_detach_query(query);
 
   /* Invoke the callback. */
   query->callback(query->arg, status, query->timeouts, dnsrec);
